@@ -138,7 +138,7 @@ header: emitted length (4 iff size<=0x7FFF else 5), plaintext layout via the mod
 encode route (slice/writer) and decode path (read-based / attempt+byte) vary per header; long mixed sequences. distinct = distinct \
 (size, opcode) pairs driven (each is one input of the quantifier) counted per workload part"
         .to_string();
-    let shards = 64usize;
+    let shards = if tier == "miri" { 1usize } else { 64usize };
     let full = tier == "thorough";
     let r = par(shards, threads(), |sh| {
         let mut rep = Rep::new();
